@@ -249,25 +249,6 @@ def _only_size(e, n):
     return True
 
 
-@findings.predicate("c04_statement_over_possibly_empty_list")
-def pred_empty_list_stmt(case):
-    """a statement whose only operands are lists that are (or become) empty and literals references no field at all
-    when the call is made; the library drops such statements"""
-    cls = case["prog"]["classes"][0]
-    empties = set(l["name"] for l in cls["lists"] if l["mode"] != "randsz" and l.get("size", 0) == 0)
-    for op in case["ops"]:
-        if op[0] == "clear" or (op[0] == "assign" and not op[2]):
-            empties.add(op[1])
-    if not empties:
-        return False
-    for s in cls["blocks"][0]["stmts"]:
-        refs = sem.fields_of_stmt(s)
-        refs = set(r for r in refs if not r.startswith("$"))
-        if refs and refs <= empties:
-            return True
-    return False
-
-
 @findings.predicate("c04_randsz_with_element_constraints")
 def pred_randsz(case):
     """a random-size list whose elements (foreach / sum / unique) are constrained: the library fixes the size before
